@@ -52,6 +52,13 @@ def _driver(args, tier, seed, timeout=3000) -> dict:
 
 def run(tier: str, seed: int) -> int:
     t0 = time.time()
+    phases: dict = {}
+    last = [t0]
+
+    def _tick(name: str) -> None:
+        now = time.time()
+        phases[name] = round(phases.get(name, 0) + now - last[0], 1)
+        last[0] = now
     work = core.Work()
     thorough = tier == 'thorough'
     try:
@@ -63,39 +70,48 @@ def run(tier: str, seed: int) -> int:
             cov['models'][cfg] = {'generated': r.generated, 'distinct': r.distinct, 'depth': r.depth}
             cov['states'] += r.distinct
             cov['transitions'] += r.generated
+        _tick('model checking')
         r = run_tlc('Instances', 'Instances_bug.cfg', workers=4)
         if r.ok or 'TemplateFrozen' not in ' '.join(r.errors):
             raise core.MachineryError(f'the model with shared $fixup values does not violate TemplateFrozen: {r.errors}')
         cov['models']['Instances_bug.cfg'] = {'violated': 'TemplateFrozen (as required)'}
+        _tick('defective variant')
         recs = []
         # 2. every transition of the bounded machine on a real map; collapse_all on every inclusion graph
-        r = run_tlc('Instances', 'Instances_edges.cfg', workers=1)
-        core.require_mc(r, 'Instances_edges.cfg')
-        edges = [p for p in r.prints if isinstance(p, dict) and p.get('tag') == 'EDGE']
-        m = re.search(r'Finished computing initial states: (\d+) states? generated', r.raw)
-        n_init = int(m.group(1)) if m else 1
-        if len(edges) != r.generated - n_init or not edges:
-            raise core.MachineryError(f'Instances_edges.cfg: {len(edges)} edges printed for {r.generated} generated states ({n_init} initial)')
         actions: dict = {}
-        for e in edges:
-            actions[e['a']['op']] = actions.get(e['a']['op'], 0) + 1
-        want = {'roundstart', 'collapse', 'done', 'limit', 'limitexact'}
-        if not want <= set(actions):
-            raise core.MachineryError(f'vacuous model: actions never taken: {want - set(actions)}')
+        cov['model_edges'] = cov['edges_replayed'] = cov['collapse_all_runs'] = 0
+        for ecfg in (['Instances_edges.cfg'] + (['Instances_edges2.cfg'] if thorough else [])):
+            r = run_tlc('Instances', ecfg, workers=1, timeout=1800)
+            core.require_mc(r, ecfg)
+            edges = [p for p in r.prints if isinstance(p, dict) and p.get('tag') == 'EDGE']
+            m = re.search(r'Finished computing initial states: (\d+) states? generated', r.raw)
+            n_init = int(m.group(1)) if m else 1
+            if len(edges) != r.generated - n_init or not edges:
+                raise core.MachineryError(f'{ecfg}: {len(edges)} edges printed for {r.generated} generated states ({n_init} initial)')
+            acts: dict = {}
+            for e in edges:
+                acts[e['a']['op']] = acts.get(e['a']['op'], 0) + 1
+            want = {'roundstart', 'collapse', 'done', 'limit', 'limitexact'}
+            if not want <= set(acts):
+                raise core.MachineryError(f'vacuous model {ecfg}: actions never taken: {want - set(acts)}')
+            for k, v in acts.items():
+                actions[k] = actions.get(k, 0) + v
+            cov['model_edges'] += len(edges)
+            _tick('edge dump')
+            ef = work.path(ecfg + '.json')
+            ef.write_text(json.dumps(edges))
+            out = work.path(ecfg + '.steps.ndjson')
+            st = _driver(['edges', ef, out], tier, seed)
+            if st.get('edges_replayed', 0) != acts['roundstart'] + acts['collapse']:
+                raise core.MachineryError(f'edge replay incomplete: {st} vs {acts}')
+            cov['edges_replayed'] += st['edges_replayed']
+            recs.append(out)
+            out = work.path(ecfg + '.runs.ndjson')
+            st = _driver(['runs', ef, out], tier, seed)
+            cov['collapse_all_runs'] += st.get('runs', 0)
+            recs.append(out)
         cov['actions_covered'] = actions
-        cov['model_edges'] = len(edges)
-        ef = work.path('edges.json')
-        ef.write_text(json.dumps(edges))
-        out = work.path('edges.ndjson')
-        st = _driver(['edges', ef, out], tier, seed)
-        if st.get('edges_replayed', 0) != actions['roundstart'] + actions['collapse']:
-            raise core.MachineryError(f'edge replay incomplete: {st} vs {actions}')
-        cov['edges_replayed'] = st['edges_replayed']
-        recs.append(out)
-        out = work.path('runs.ndjson')
-        st = _driver(['runs', ef, out], tier, seed)
-        cov['collapse_all_runs'] = st.get('runs', 0)
-        recs.append(out)
+        _tick('edge replay + collapse_all runs')
         # 3. TLC-generated collapse scenarios (coverage handshake: one record family per scenario)
         r = run_tlc('InstancesScen', f'InstancesScen_{tier}.cfg', workers=1, timeout=1800)
         core.require_mc(r, 'InstancesScen')
@@ -116,28 +132,33 @@ def run(tier: str, seed: int) -> int:
             raise core.MachineryError(f'scenario handshake failed: {st["records"]} records for {n_step}+{n_final} collapses')
         cov['scenarios'] = len(scens)
         recs.append(out)
+        _tick('scenarios')
         # 4. substitute / fixup_name; seeded random templates outside the bounds
         for mode in ('subst', 'random'):
             out = work.path(mode + '.ndjson')
             _driver([mode, out], tier, seed)
             recs.append(out)
+        _tick('substitute + random')
         # 5. TLC validates every record
         allm = []
         total = 0
         samples = []
         kinds: dict = {}
-        for p in recs:
-            mism, st = core.validate_records('InstancesTrace', 'InstancesTrace.cfg', p, work=work, shards=8)
-            allm += mism
-            total += st['records']
-            cov['states'] += st['states']
-            cov['transitions'] += st['transitions']
-            rs = core.read_ndjson(p)
-            for x in rs:
-                kinds[x['k']] = kinds.get(x['k'], 0) + 1
-            mid = rs[len(rs) // 2]
-            samples.append({'k': mid['k'], 'sig': mid['sig'], 'hist': mid.get('hist') if mid['k'] in ('subst', 'name') else
-                            {k: v for k, v in (mid.get('hist') or {}).items() if k in ('gen', 'sc', 'seed', 'limit')}})
+        merged = work.path('all.ndjson')
+        with open(merged, 'w', encoding='utf-8') as f:
+            for p in recs:
+                rs = core.read_ndjson(p)
+                for x in rs:
+                    kinds[x['k']] = kinds.get(x['k'], 0) + 1
+                mid = rs[len(rs) // 2]
+                samples.append({'k': mid['k'], 'sig': mid['sig'], 'hist': mid.get('hist') if mid['k'] in ('subst', 'name') else
+                                {k: ([a['op'] for a in v] if k == 'path' else v) for k, v in (mid.get('hist') or {}).items()
+                                 if k in ('gen', 'sc', 'seed', 'limit', 'path')}})
+                f.write(open(p, encoding='utf-8').read())
+        allm, st = core.validate_records('InstancesTrace', 'InstancesTrace.cfg', merged, work=work, shards=12)
+        total = st['records']
+        cov['states'] += st['states']
+        cov['transitions'] += st['transitions']
         for k in ('collapse', 'step', 'run', 'subst', 'name'):
             if not kinds.get(k):
                 raise core.MachineryError(f'no records of kind {k}')
@@ -147,11 +168,14 @@ def run(tier: str, seed: int) -> int:
         cov['mismatches'] = len(allm)
         cov['samples'] = samples
         cov['exhaustive'] = True
+        _tick('record validation')
         # 6. numeric residue: arbitrary real rotations (evaluated by the harness, reported separately)
         nf = work.path('numeric.json')
         _driver(['numeric', nf], tier, seed)
         num = json.loads(nf.read_text())
         cov['numeric_residue'] = {'cases': num['cases'], 'checks': num['checks'], 'failed': num['n_bad'], 'tolerance': 1e-6}
+        _tick('numeric residue')
+        cov['phase_wall_s'] = phases
         sigs = [sig_of(m) for m in allm]
         for b in num['bad'][:5]:
             sigs.append({'kind': 'numeric', 'action': 'collapse', 'clause': 'numeric.' + b['what'], 'expected': b.get('want'),
@@ -172,8 +196,15 @@ def replay(path: str) -> int:
     try:
         rp = json.loads(open(path).read())
         if rp.get('kind') == 'numeric':
-            print(f'replay of numeric residue: rerun ./check {PROP}')
-            return 2
+            # numeric residue: the seeded cases are evaluated again by the harness
+            nf = work.path('numeric.json')
+            core.run_driver('c17_driver.py', ['numeric', nf])
+            num = json.loads(nf.read_text())
+            if num['n_bad']:
+                print(f'VIOLATION property={PROP} replay={path} clause=numeric.{num["bad"][0]["what"]}')
+                return 1
+            print(f'OK replay={path}: numeric residue holds ({num["checks"]} comparisons)')
+            return 0
         out = work.path('replay.ndjson')
         core.run_driver('c17_driver.py', ['replay', path, out])
         mism, _ = core.validate_records('InstancesTrace', 'InstancesTrace.cfg', out, work=work, shards=1)
